@@ -171,7 +171,10 @@ func parent(id string, ck *Check, tier string) int {
 	}
 	defer os.RemoveAll(outdir)
 	merged := evid.NewResult()
-	broken := runWorkers(id, tier, os.Args[0], n, outdir, "", merged)
+	broken := false
+	if n > 0 {
+		broken = runWorkers(id, tier, os.Args[0], n, outdir, "", merged)
+	}
 	if ck.SchedWorkers != nil {
 		if bin := os.Getenv("VERIF_SCHED_BIN"); bin != "" {
 			out2, _ := os.MkdirTemp(os.Getenv("VERIF_WORK"), "outs")
